@@ -40,6 +40,12 @@ fn write_all(fd: i32, mut b: &[u8], chunk: usize) -> bool {
 
 /// fork + execvp + waitpid; optional bytes for the child's stdin.
 fn run(argv: &[String], stdin: Option<&[u8]>) -> i32 {
+    run_chunked(argv, stdin, 4096)
+}
+
+/// Like `run`; the data for the child's stdin is written in pieces of `chunk`
+/// bytes (one write each), the way `cat a b c | cmd` delivers it in bursts.
+fn run_chunked(argv: &[String], stdin: Option<&[u8]>, chunk: usize) -> i32 {
     let c: Vec<CString> = argv.iter().map(|s| cstr(s)).collect();
     let mut p: Vec<*const libc::c_char> = c.iter().map(|s| s.as_ptr()).collect();
     p.push(std::ptr::null());
@@ -68,7 +74,7 @@ fn run(argv: &[String], stdin: Option<&[u8]>) -> i32 {
         unsafe {
             libc::close(fds[0]);
         }
-        write_all(fds[1], data, 4096);
+        write_all(fds[1], data, chunk.max(1));
         unsafe {
             libc::close(fds[1]);
         }
@@ -368,7 +374,9 @@ fn main() {
             }
             Stmt::Stamp { only } => {
                 let payload = stamp_payload(&cx.lines, only);
-                let rc = run(&["redo-stamp".to_string()], Some(&payload));
+                // three bursts: a reader that takes a short read for the end of
+                // its input sees only the first of them
+                let rc = run_chunked(&["redo-stamp".to_string()], Some(&payload), (payload.len() + 2) / 3);
                 if rc != 0 {
                     cx.finish(rc);
                 }
